@@ -1,22 +1,22 @@
 CONSTANTS
-  N = 3
+  N = 2
   L = 2
   Cap = 2
   HasHead = TRUE
   Manual = FALSE
   HasPay = FALSE
-  HasPlans = TRUE
-  HasSerial = TRUE
+  HasPlans = FALSE
+  HasSerial = FALSE
   HasHist = TRUE
   HasLog = FALSE
   Verbose = FALSE
   InjCnt <- NoInj
   DefMask <- AllDef
-  MaxActs = 1
+  MaxActs = 2
   WithMonitors = TRUE
-  EnvOps <- SmokeOps
-  EnvActs <- SmokeActs
-  EnvPoints <- AllPoints
+  EnvOps <- GuardOpsQ
+  EnvActs <- GuardActs
+  EnvPoints <- GuardPoints
 INIT Init
 NEXT Next
 VIEW StView
